@@ -52,14 +52,14 @@ func c15NewRing(replicas int, hf *c15Hash) *ConsistentHash {
 var c15Names = []string{"A", "B", "C"}
 
 // c15Shape picks the bounds: quick = 2 nodes, ring replicas 1, 3 operations; thorough = either
-// (2 nodes, replicas 1..2) or (3 nodes, replicas 1), 3 operations. The number of orderings of the
+// (2 nodes, replicas 2) or (3 nodes, replicas 1), 3 operations (the quick shape is not repeated). The number of orderings of the
 // symbolic hashes (explored by forking in sort.Search) grows factorially with nodes x replicas.
 func c15Shape() (replicas, nodes, steps int) {
 	if rt.Tier() == 0 {
 		return 1, 2, 3
 	}
 	if rt.Choose("shape", 2) == 0 {
-		return rt.Choose("ringReplicas", 2) + 1, 2, 3
+		return 2, 2, 3
 	}
 	return 1, 3, 3
 }
@@ -114,7 +114,7 @@ func c15Empty(cfg []int) bool {
 
 //verif:entry native tier=quick,thorough cover=hit,empty,removed,collision
 //verif:stub github.com/zeromicro/go-zero/core/lang.Repr c15Repr
-//verif:doc Member-only (hash collisions allowed): histories of 3 operations (quick: 2 nodes, ring replicas 1; thorough: 2 nodes x replicas 1..2 or 3 nodes x replicas 1) Add / AddWithReplicas(1..3) / AddWithWeight(0..200) / Remove, every virtual-node hash and the probe hash symbolic: Get returns a node that currently has virtual nodes, none iff there is none, never a removed node.
+//verif:doc Member-only (hash collisions allowed): histories of 3 operations (quick: 2 nodes, ring replicas 1; thorough: 2 nodes x replicas 2 or 3 nodes x replicas 1) Add / AddWithReplicas(1..3) / AddWithWeight(0..200) / Remove, every virtual-node hash and the probe hash symbolic: Get returns a node that currently has virtual nodes, none iff there is none, never a removed node.
 func Verif_C15_Member() {
 	hf := &c15Hash{memo: map[string]uint64{}}
 	r, nodes, steps := c15Shape()
@@ -146,7 +146,7 @@ func Verif_C15_Member() {
 
 //verif:entry native tier=quick,thorough cover=same,differentOrder
 //verif:stub github.com/zeromicro/go-zero/core/lang.Repr c15Repr
-//verif:doc Determinism (virtual-node hashes pairwise distinct: assumption): after any history of 3 operations (quick: 2 nodes, ring replicas 1; thorough: 2 nodes x replicas 1..2 or 3 nodes x replicas 1) the answer for the probe equals the answer of a ring built from scratch from the resulting (node, virtual-node count) configuration in a fixed order: the mapping depends only on the current node set and replica counts, not on history.
+//verif:doc Determinism (virtual-node hashes pairwise distinct: assumption): after any history of 3 operations (quick: 2 nodes, ring replicas 1; thorough: 2 nodes x replicas 2 or 3 nodes x replicas 1) the answer for the probe equals the answer of a ring built from scratch from the resulting (node, virtual-node count) configuration in a fixed order: the mapping depends only on the current node set and replica counts, not on history.
 func Verif_C15_Deterministic() {
 	hf := &c15Hash{memo: map[string]uint64{}, distinct: true}
 	r, nodes, steps := c15Shape()
